@@ -8,10 +8,10 @@ atom/functor/listpair/makelist (both directions, same and other engine, and a mu
 object identity of atoms per engine."""
 import random
 from lib import ast_io
-from lib.terms import g_str
+from lib.terms import g_str, g_list
 
 ID = 'C16'
-IMPORTS = ['Lang.Front']
+IMPORTS = ['Lang.Ast', 'Lang.Front', 'Lang.Denote']
 THEOREMS = ['C16_quoted_atom_roundtrip', 'C16_quoted_atom_in_context', 'C16_quoted_atom_literal', 'C16_plain_atom_token',
             'C16_numeral_token', 'C16_numeral_leading_zeros', 'C16_numeral_roundtrip', 'C16_variable_token',
             'C16_list_pattern_folds', 'C16_list_literal', 'C16_anon_fresh', 'C16_anon_name_inj', 'C16_anon_not_source',
@@ -271,7 +271,28 @@ def builtin_corpus():
     return [make_case(rng, g) for g in groups]
 
 def model_expr(case):
-    return '(run_front %s)' % g_str(case['src'])
+    envs = g_list([g_list(['(%s, %s)' % (g_str(v), ast_io.g_sterm(t)) for v, t in env.items()]) for env in case['envs']])
+    return '(run_c16 %s %s)' % (g_str(case['src']), envs)
+
+_UNSPEC = ['unspecified']
+
+def _mv(v):
+    """a Python value printed by the model (Lang/Denote.pyval_obs) in the encoding of enc()"""
+    k = v[0]
+    if k == 's': return v[1]
+    if k == 'i': return v[1]
+    if k == 'none': return None
+    if k == 'l': return ['l'] + [_mv(x) for x in v[1]]
+    if k == 't': return ['t', v[1], [_mv(x) for x in v[2]]]
+    if k == 'unspecified': return _UNSPEC
+    raise ValueError(v)
+
+def _has_dot(t):
+    k = t[0]
+    if k == 'fun': return t[1] == '.' or any(_has_dot(a) for a in t[2])
+    if k == 'list': return any(_has_dot(a) for a in t[1])
+    if k == 'pair': return _has_dot(t[1]) or _has_dot(t[2])
+    return False
 
 # ------------------------------------------------------------------ implementation
 
@@ -579,6 +600,7 @@ def _unnumber(t):
 def compare(case, io, mo):
     if not isinstance(io, dict):
         return None
+    mo, mlits = mo
     if mo[0] != 'ok':
         return 'the model front end refuses a program of literals (%s)' % mo[0]
     prog = mo[1]
@@ -594,7 +616,29 @@ def compare(case, io, mo):
     lits = _model_lits(case, prog)
     if lits is None:
         return 'model program lacks a fact clause'
-    return _expected_from([_unnumber(l) for l in lits], case, io)
+    r = _expected_from([_unnumber(l) for l in lits], case, io)
+    if r:
+        return r
+    # the values that the proved specification lit_py (Lang/Denote.v, theorem C16_to_python_literal) prescribes, computed
+    # inside Coq from the source text, against what to_python returns for the compiled program -- in every position
+    if mlits[0] != 'ok' or len(mlits[1]) != len(case['lits']):
+        return 'tie: the model did not produce the specified Python values of the literals'
+    for i, (lit, mv) in enumerate(zip(case['lits'], mlits[1])):
+        o = io['lits'][i]
+        free, bound = _mv(mv[0]), _mv(mv[1])
+        # the two independent computations of the expected value (this harness, the Coq specification) agree
+        pf, pb = py_of(lit, {}), py_of(lit, case['envs'][i])
+        if not _has_dot(lit):
+            if (free == _UNSPEC) != has_raise(pf) or (bound == _UNSPEC) != has_raise(pb):
+                return 'tie: literal %d: the harness and the Coq specification disagree on whether the value is specified' % i
+            if (free != _UNSPEC and free != pf) or (bound != _UNSPEC and bound != pb):
+                return 'tie: literal %d: the Coq specification lit_py gives %r / %r, the harness expects %r / %r' % (i, free, bound, pf, pb)
+        for pred in POSITIONS:
+            if free != _UNSPEC and o[pred + '_free'] != [free]:
+                return 'literal %d in %s position: to_python gives %r, the specification (lit_py) prescribes %r' % (i, pred, o[pred + '_free'], free)
+            if bound != _UNSPEC and o[pred + '_bound'] != [bound]:
+                return 'literal %d in %s position, variables bound: to_python gives %r, the specification (lit_py) prescribes %r' % (i, pred, o[pred + '_bound'], bound)
+    return None
 
 def _rename_body(b, counter):
     k = b[0]
